@@ -105,6 +105,9 @@ def unc(rng, x, allow_none=True):
         return None
     if r < 0.35:
         return np.zeros(len(x))
+    if r < 0.43:
+        # very small but non-zero uncertainties (every entry below any absolute "is it zero" tolerance)
+        return np.ascontiguousarray(rng.uniform(0.1, 1.0, len(x)) * 10 ** rng.uniform(-14, -8.5), dtype=float)
     return np.ascontiguousarray(rng.uniform(0.0, 1.0, len(x)) * 10 ** rng.uniform(-3, 0), dtype=float)
 
 
@@ -127,4 +130,9 @@ def material(rng, negative_bcoh=False, special=True):
             kw["rho"] = 1.0
     if negative_bcoh and rng.random() < 0.3:
         kw["<b_coh>^2"] = -kw["<b_coh>^2"]
+    if special and rng.random() < 0.1:
+        # whole-number constants given as Python integers (JSON configurations do that): integer arithmetic on an option shows
+        for k in list(kw):
+            if rng.random() < 0.7:
+                kw[k] = int(rng.integers(2, 9)) * (-1 if kw[k] < 0 else 1)
     return kw
